@@ -290,7 +290,7 @@ func (e *Eng) evalCallInner(st *State, call *ast.CallExpr) []*Val {
 	// counters
 	st.counters[key] = fmt.Sprintf("(+ %s 1)", counterOf(st, key))
 
-	con := e.contracts.ByKey[key]
+	con := e.contracts.lookup(key, e.declPkg())
 	if con != nil && con.Trusted {
 		e.trustedUsed[key] = true
 	}
@@ -494,7 +494,7 @@ func (e *Eng) callIsPure(call *ast.CallExpr) bool {
 	if sig == nil {
 		return false
 	}
-	con := e.contracts.ByKey[key]
+	con := e.contracts.lookup(key, e.declPkg())
 	return con != nil && con.Pure
 }
 
@@ -835,4 +835,16 @@ func (e *Eng) chanEvent(st *State, kind string, ch ast.Expr, pos token.Pos) {
 		}
 	}
 	st.counters[kind] = fmt.Sprintf("(+ %s 1)", counterOf(st, kind))
+}
+
+// declPkg: the package whose contract file declares the contract being verified (for family instances the package
+// of the family declaration, e.g. codegen for the generated test servers).
+func (e *Eng) declPkg() string {
+	if e.con != nil && e.con.Pkg != "" {
+		return e.con.Pkg
+	}
+	if e.pkg != nil {
+		return e.pkg.PkgPath
+	}
+	return ""
 }
